@@ -42,6 +42,7 @@ type Contract struct {
 	Entry       []*Clause // assumed when verified as a thread root; not checked at go sites
 	Sets        []*SetClause
 	Panics      string    // "false" | "any" | "when"
+	NoLocks     []string  // functype contracts: `callernolocks Cxx ...` - the caller holds no lock it acquired itself
 	PanicsWhen  *Clause
 	Modifies    []string
 	HasModifies bool
@@ -298,7 +299,7 @@ func parseSpecExpr(text string) (ast.Expr, error) {
 	return ex, nil
 }
 
-var clauseKw = map[string]bool{"requires": true, "ensures": true, "panics": true, "modifies": true, "inline": true, "trusted": true, "tags": true,
+var clauseKw = map[string]bool{"requires": true, "ensures": true, "panics": true, "callernolocks": true, "modifies": true, "inline": true, "trusted": true, "tags": true,
 	"safety": true, "invariant": true, "exit": true, "entry": true, "shapes": true, "thread": true, "params": true, "results": true, "sets": true}
 
 func (db *ContractDB) loadFile(path, pkg string) error {
@@ -549,6 +550,8 @@ func (db *ContractDB) loadFile(path, pkg string) error {
 					return fmt.Errorf("%s: %s: %v", path, cur.Name, err)
 				}
 				cur.Sets = append(cur.Sets, sc)
+			case "callernolocks":
+				cur.NoLocks = strings.Fields(rest)
 			case "panics":
 				switch {
 				case rest == "false" || rest == "any":
